@@ -453,7 +453,12 @@ impl<K: StructuralWritable, V: StructuralWritable> Encoder<MapOperation<K, V>>
 struct MessageEncoder<Inner>(Inner);
 
 #[derive(Debug, Default, Clone, Copy)]
-struct MessageDecoder<Inner>(Inner);
+struct MessageDecoder<Inner> {
+    inner: Inner,
+    /// The inner decoder has consumed the header of an operation and is part way through it: what is at
+    /// the front of the buffer is not a header.
+    in_operation: bool,
+}
 
 impl<K, V, Inner> Encoder<MapMessage<K, V>> for MessageEncoder<Inner>
 where
@@ -496,15 +501,18 @@ where
     type Error = FrameIoError;
 
     fn decode(&mut self, src: &mut BytesMut) -> Result<Option<Self::Item>, Self::Error> {
-        let MessageDecoder(inner) = self;
-        if src.remaining() < TAG_SIZE + LEN_SIZE {
-            src.reserve(TAG_SIZE + LEN_SIZE);
-            return Ok(None);
-        }
-        let mut header = src.as_ref();
-        let total_len = header.get_u64() as usize;
-        match header.get_u8() {
-            tag @ (TAKE | DROP) => {
+        let MessageDecoder {
+            inner,
+            in_operation,
+        } = self;
+        if !*in_operation {
+            if src.remaining() < TAG_SIZE + LEN_SIZE {
+                src.reserve(TAG_SIZE + LEN_SIZE);
+                return Ok(None);
+            }
+            let mut header = src.as_ref();
+            let total_len = header.get_u64() as usize;
+            if let tag @ (TAKE | DROP) = header.get_u8() {
                 if total_len != TAG_SIZE + LEN_SIZE {
                     return Err(FrameIoError::BadFrame(InvalidFrame::InvalidHeader {
                         problem: Text::new(BAD_RECORD_SIZE),
@@ -517,17 +525,18 @@ where
                 }
                 src.advance(TAG_SIZE + LEN_SIZE);
                 let n = src.get_u64();
-                Ok(Some(if tag == TAKE {
+                return Ok(Some(if tag == TAKE {
                     MapMessage::Take(n)
                 } else {
                     MapMessage::Drop(n)
-                }))
-            }
-            _ => {
-                let result = inner.decode(src)?;
-                Ok(result.map(Into::into))
+                }));
             }
         }
+        let before = src.remaining();
+        let result = inner.decode(src);
+        // The inner decoder is inside an operation if it wants more input after consuming some of it.
+        *in_operation = matches!(&result, Ok(None)) && (*in_operation || src.remaining() != before);
+        Ok(result?.map(Into::into))
     }
 }
 
